@@ -220,7 +220,7 @@ func c09Run(c *core.Ctx) {
 		if len(h) > 0 {
 			// ownership is decided on complete histories
 			if c.Next() {
-				if c.Saturated() || (c.Count0()&1023 == 0 && c.Expired()) {
+				if c.Saturated() || c.Tick() {
 					return
 				}
 				kind, _, mod := smRun(h)
